@@ -77,6 +77,9 @@ def run(chk, tier, seed):
         d = discs.build("DFS", ents, scratch, "out", nsectors=800, salt=13, title=b"OUTPUT", body_writer=bw)
         ents_small = [mkdisc.entry("S%02d" % i, "$", False, 0, 0, 300 + 17 * i, 700 - 5 * i) for i in range(20)]
         d_small = discs.build("DFS", ents_small, scratch, "small", nsectors=800, salt=14, title=b"SMALL")
+        # tiny and empty files: the per-file limit can be above every body and still below the size of the .inf files
+        ents_tiny = [mkdisc.entry("T%02d" % i, "$", i % 2 == 0, 0x31900, 0x8023, [0, 5, 10][i % 3], 600 - 2 * i) for i in range(9)]
+        d_tiny = discs.build("DFS", ents_tiny, scratch, "tiny", nsectors=800, salt=15, title=b"TINY")
         prog = os.path.join(scratch, "p.bbc")
         open(prog, "wb").write(bc.prog("6502", [(10 * i, [0xF1, 34] + [65 + (i % 26)] * 30 + [34]) for i in range(1, 200)]))
         cmds = [("dfs", [dfs, "--file", d.path] + c) for c in (["cat"], ["info", "#.*"], ["free"], ["space"], ["sector-map"], ["type", "BIG"],
@@ -115,8 +118,8 @@ def run(chk, tier, seed):
         # extraction: the limit applies to every file the process creates
         xjobs = []
         for cmdname, argv_tail, disc, dents in (("extract-files", ["extract-files"], d, ents), ("extract-files", ["extract-files"], d_small, ents_small),
-                                               ("extract-unused", ["extract-unused"], d, ents)):
-            for k in ([0, 1, 255, 256, 300, 12000, 100000] if quick else [0, 1, 2, 100, 255, 256, 257, 300, 400, 1000, 5000, 11999, 12000, 12001, 100000]):
+                                               ("extract-files", ["extract-files"], d_tiny, ents_tiny), ("extract-unused", ["extract-unused"], d, ents)):
+            for k in ([10, 20, 30, 36, 40, 100] if disc is d_tiny else []) + ([0, 1, 255, 256, 300, 12000, 100000] if quick else [0, 1, 2, 100, 255, 256, 257, 300, 400, 1000, 5000, 11999, 12000, 12001, 100000]):
                 xjobs.append((cmdname, argv_tail, k, disc, dents))
 
         def dox(ij):
@@ -136,7 +139,11 @@ def run(chk, tier, seed):
                     if got != want:
                         short += 1
                     inf = fn + ".inf"
-                    if not os.path.exists(inf) or os.path.getsize(inf) < 30:
+                    try:
+                        inftxt = open(inf, "rb").read()
+                    except OSError:
+                        inftxt = b""
+                    if not (inftxt.endswith(b"\n") and b"CRC=" in inftxt):       # a complete .inf line
                         short += 1
             else:
                 # unused runs are known from sector-map of the same disc: all files must be multiples of 256 and non-empty; compare with
